@@ -48,6 +48,12 @@ def main():
             r = fn(**params)
             res.update(r)
     except BaseException as e:  # noqa
+        if type(e).__name__ in ("Inconclusive", "Unsupported"):
+            res["verdict"] = "INCONCLUSIVE"
+            res["message"] = f"{type(e).__name__}: {e}"
+            res["wall_s"] = round(time.time() - t0, 3)
+            sys.stdout.write("\nRESULT " + json.dumps(res, default=repr) + "\n")
+            return
         res["verdict"] = "ERROR"
         res["message"] = "worker exception: " + "".join(traceback.format_exception(type(e), e, e.__traceback__))[-3000:]
     res["wall_s"] = round(time.time() - t0, 3)
